@@ -202,7 +202,22 @@ def lists(prog, ctx):
     f = G.bool_summary(prog, lc)
     txt = G.f_show(f).replace(' ', '')
     ol = one_loop(lc)
+    found = None
     if ol is None or ol[1] is None:
+        # the standard-algorithm form: std::find over the whole list compared with end()
+        try:
+            o_ = [o for o in Symx(prog, lc).run()]
+        except Undecided:
+            o_ = []
+        if len(o_) == 1 and o_[0].kind == 'return' and isinstance(o_[0].value, sp.core.function.AppliedUndef) and o_[0].value.func.__name__.startswith('op!='):
+            fa = [a_ for a_ in o_[0].value.args if isinstance(a_, sp.core.function.AppliedUndef) and a_.func.__name__ == 'std::find']
+            en = [a_ for a_ in o_[0].value.args if str(a_) == 'm:%s.end()' % a0]
+            if len(fa) == 1 and len(en) == 1:
+                found = [str(x_) for x_ in fa[0].args] == ['m:%s.begin()' % a0, 'm:%s.end()' % a0, a1]
+    if found is not None:
+        ctx.decide(R, 'List_Contains', lc, found, 'std::find over the whole list differs from end() iff some element equals the value',
+                   'std::find does not search the whole list for the value')
+    elif ol is None or ol[1] is None:
         ctx.undecided(R, 'List_Contains', lc, 'single counted loop not found')
     else:
         lv, cl = ol
@@ -280,8 +295,14 @@ def stats(prog, ctx):
     sx = Symx(prog, am)
     outs = [o for o in sx.run() if o.kind == 'return']
     v = outs[0].value if len(outs) == 1 else None
-    acc = [a for a in v.atoms(sp.core.function.AppliedUndef) if a.func.__name__ == 'ACCUM'] if v is not None else []
-    ok = len(acc) == 1 and str(acc[0].args[0]) == 'arr:data' and acc[0].args[1] == 0 and acc[0].args[2] == n and acc[0].args[3] == 0 and is_zero(v - acc[0] / n)
+    pn = am.params[0]['name']
+    n = Symbol('len(%s)' % pn, integer=True, nonnegative=True)
+    sums = list(v.atoms(sp.Sum)) if v is not None else []
+    ok = False
+    if len(sums) == 1 and len(sums[0].limits) == 1:
+        iv, lo, hi = sums[0].limits[0]
+        ok = is_zero(sums[0].function - Function(pn, real=True)(iv)) and lo == 0 and sp.simplify(hi - (n - 1)) == 0 and is_zero(v - sums[0] / n)
+    n = Symbol('len(data)', integer=True, nonnegative=True)
     ctx.decide(R, 'Arithmetic_Mean', am, ok, 'sum of all elements (from 0.0) divided by the size', 'Arithmetic_Mean returns %s' % v, form=str(v))
     var = prog.fn(L + 'Variance')
     sx = Symx(prog, var)
